@@ -47,16 +47,46 @@ def run_histories(ctx: vf.Ctx, want: set, n_hist: int, max_len: int, classify):
     if len(out) != len(lines):
         ctx.broken_obligation('correspondence coq/circuit/CModel.v: wrong number of answers', f'{len(out)} vs {len(lines)}')
         return results
-    nm = 0
-    for j, (ri, si) in enumerate(index):
+    nm = nv = nvbad = 0
+    for j, (what, ri, si) in enumerate(index):
         got = out[2 * j + 1]
-        pre, cmd, impl, kind = results[ri]['steps'][si]
-        if got != impl:
-            nm += 1
+        pre, cmd, impl, kind, post, iv = results[ri]['steps'][si]
+        if what == 'step':
+            nm_here = got != impl
+            if nm_here:
+                nm += 1
+                if (ri, si) in flagged:
+                    continue   # the oracle already produced a concrete failing input for this step
+                ctx.mismatch('coq/circuit/CModel.v vs bqskit/ir/circuit.py (' + kind + ')', dict(pre=pre, cmd=cmd), got[:2000], impl[:2000])
+            continue
+        # views: the implementation's incrementally maintained views vs the functions of the grid of CViews.v
+        nv += 1
+        if isinstance(iv, tuple) and iv and iv[0] == 'raised':
+            names, mv = ['accessor_raised'], None
+        else:
+            try:
+                mv = cc.model_views(got)
+                names = cc.diff_views(mv, iv)
+            except Exception as e:
+                ctx.broken_obligation('views answer of the extracted model unreadable', repr(e) + ' ' + got[:300])
+                continue
+        if names:
+            nvbad += 1
             if (ri, si) in flagged:
-                continue   # the oracle already produced a concrete failing input for this step
-            ctx.mismatch('coq/circuit/CModel.v vs bqskit/ir/circuit.py (' + kind + ')', dict(pre=pre, cmd=cmd), got[:2000], impl[:2000])
-    ctx.cov['model_steps_compared'] = len(index)
+                continue
+            call = results[ri]['hist'][si]
+            i0 = cc.VIEW_NAMES.index(names[0]) if names[0] in cc.VIEW_NAMES else None
+            cl = classify(dict(kind='coq_views', call=call, symptoms=names))
+            if cl is None:
+                continue
+            sig, what_ = cl
+            ctx.violation(sig, dict(kind='circuit-history', seed=results[ri]['seed'], max_len=max_len, step=si,
+                                    pre=jsonable(cc.parse_v(pre)[0]), call=jsonable(call)),
+                          jsonable(mv[i0]) if i0 is not None and mv else 'consistent views',
+                          jsonable(iv[i0]) if i0 is not None else jsonable(iv), what_)
+    ctx.cov['view_steps_compared_with_coq'] = nv
+    ctx.cov['view_steps_disagreeing_with_coq'] = nvbad
+    ctx.cov['model_steps_compared'] = sum(1 for w, _, _ in index if w == 'step')
     ctx.cov['model_steps_disagreeing'] = nm
     return results
 
@@ -68,6 +98,18 @@ def run_corpus(ctx: vf.Ctx, want, classify):
     for f in sorted(d.glob('*.json')):
         replay_case(ctx, json.loads(f.read_text()), want, classify, quiet=True)
         ctx.count('corpus_cases')
+
+
+def coq_view_diff(c):
+    """names of the views on which the implementation differs from the functions of its own grid defined in
+    coq/circuit/CViews.v (evaluated by the extracted model)"""
+    import circ_common as cc
+    try:
+        iv = cc.impl_views(c)
+    except Exception:
+        return ['accessor_raised']
+    out = vf.run_model('circuit', ['set ' + cc.dump(c), 'views'])
+    return cc.diff_views(cc.model_views(out[1]), iv)
 
 
 def replay_case(ctx: vf.Ctx, data, want, classify, quiet=False):
@@ -89,6 +131,8 @@ def replay_case(ctx: vf.Ctx, data, want, classify, quiet=False):
     elif 'views' in want and cc.check_views(c):
         bad = cc.check_views(c)
         f = dict(kind='views', step=0, call=call, symptoms=[b[0] for b in bad], detail=bad[:3], pre=pre)
+    elif 'views' in want and coq_view_diff(c):
+        f = dict(kind='coq_views', step=0, call=call, symptoms=coq_view_diff(c), pre=pre)
     elif 'order' in want and out.kind != 'E':
         try:
             if call[0] in cr.SPEC and not cc.grouped_ok(cc.ref_apply(pre, call), post):
